@@ -12,7 +12,8 @@ package commonmark
 // is a counterexample input, never a proof of anything.
 //
 // Environment: VERIF_STANDIN_CLAUSES (comma-separated property ids, default
-// all), VERIF_STANDIN_LEVEL (quick|thorough), VERIF_SEED.  Output: one JSON
+// all), VERIF_STANDIN_LEVEL (quick|thorough), VERIF_SEED, VERIF_STANDIN_INPUT (a
+// quoted Go string: check that input only).  Output: one JSON
 // line per violated clause (first input found) and a summary line.
 
 import (
@@ -457,12 +458,31 @@ func TestVerifStandin(t *testing.T) {
 	}
 	level := os.Getenv("VERIF_STANDIN_LEVEL")
 	seed, _ := strconv.ParseInt(os.Getenv("VERIF_SEED"), 10, 64)
-	exhaustive, randomN, randomMax, charLen := 3, 1500000, 10, 6
+	exhaustive, randomN, randomMax, charLen := 3, 600000, 10, 6
 	if level == "thorough" {
 		exhaustive, randomN, randomMax, charLen = 4, 20000000, 14, 7
 	}
 	if v := os.Getenv("VERIF_STANDIN_RANDOM"); v != "" {
 		randomN, _ = strconv.Atoi(v)
+	}
+	if q := os.Getenv("VERIF_STANDIN_INPUT"); q != "" {
+		// replay of one recorded input
+		in, err := strconv.Unquote(q)
+		if err != nil {
+			t.Fatal(err)
+		}
+		c := &standinChecker{want: want}
+		c.checkDocument([]byte(in))
+		enc := json.NewEncoder(os.Stdout)
+		for _, v := range c.out {
+			fmt.Print("STANDIN-VIOLATION ")
+			enc.Encode(v)
+		}
+		fmt.Printf("STANDIN-SUMMARY {\"inputs\":1,\"violations\":%d}\n", len(c.out))
+		if len(c.out) > 0 {
+			t.Fail()
+		}
+		return
 	}
 	inputs := make(chan []byte, 1024)
 	var mu sync.Mutex
